@@ -93,7 +93,13 @@ def handleSample (rest : List String) : String :=
     let candS := s!"cand {candsF.length} " ++ " ".intercalate
       (candsF.map fun cd => s!"{cd.edge} {cd.src} {cd.dst} {floatStr cd.score}")
     let fsubsS := "fsubs " ++ " ".intercalate (candsF.map fun cd => chStr cd.subs ++ " " ++ subsStr cd.subs)
-    match forwardSample flF castF Float.sqrt PF pafF peaksF ans with
+    -- scipy as a function: the recorded answer of edge k for the model's own cost matrix of edge k
+    let chs := peaksF.map (·.ch)
+    let tabs := scoreTables chs edges candsF
+    let cms : List (Mat (Option Float)) := edges.zipIdx.map fun x => costMatrix chs x.1 (tabs.getD x.2 [])
+    let table := cms.zip ans
+    let lsa : Lsa Float := fun C => ((table.find? (fun kv => kv.1 == C)).map (·.2)).getD none
+    match forwardSample flF castF Float.sqrt PF pafF peaksF lsa with
     | .error e => s!"raise {errStr e} | {candS} | {fsubsS} | {rsubsS}"
     | .ok o =>
       let connS := s!"conn {o.conns.length} " ++ " ".intercalate
